@@ -679,8 +679,9 @@ theorem inverse_isSome_iff (a : QMat) :
 /-! ## non-vacuity -/
 
 example : (solve (ofRows [[2, 1], [1, 3]]) (ofRows [[1, 0, 4], [2, 5, 0]])).isSome = true := by decide +kernel
-example : (solve (ofRows [[0, 1, 2], [1, 0, 3], [4, -3, 8]]) (ofRows [[1], [2], [3]])).map (fun x => decide (x.get 0 0 = 1))
-    = some false := by decide +kernel     -- a 3 × 3 system needing a row swap is solved
+-- a 3 × 3 system needing a row swap: the answer is `(-1, -1, 1)`
+example : (solve (ofRows [[0, 1, 2], [1, 0, 3], [4, -3, 8]]) (ofRows [[1], [2], [7]])).map
+    (fun x => decide (x.get 0 0 = -1 ∧ x.get 1 0 = -1 ∧ x.get 2 0 = 1)) = some true := by decide +kernel
 example : (solve (ofRows [[1, 2], [2, 4]]) (ofRows [[1], [2]])).isSome = false := by decide +kernel   -- singular
 example : IsUnit ((ofRows [[2, 1], [1, 3]]).toMat 2 2).det := by
   rw [isUnit_iff_ne_zero, Matrix.det_fin_two]
